@@ -976,16 +976,16 @@ Qed.
 Definition cis_rel (s : nat) (ic pu : nat * N) : Prop :=
   snd ic = snd pu /\ U s + fst pu = U (s + fst ic).
 
-Lemma bd16_run_sim ds lg pc ri s : length pc = k ->
+Lemma bd16_run_sim ds lg oc pc ri s : length pc = k -> length oc = k ->
   forall cis_c cis_u, Forall2 (cis_rel s) cis_c cis_u ->
   forall stack pairs stack' pairs' stopped,
-  bd16_run ds lg pc ri s cis_c stack pairs = Ok (stack', pairs', stopped) ->
+  bd16_run ds lg oc pc ri s cis_c stack pairs = Ok (stack', pairs', stopped) ->
   stack_ok stack -> pairs_ok pairs ->
-  bd16_run ds lg (E pc) ri (U s) cis_u (ustk stack) (map upair pairs)
+  bd16_run ds lg (E oc) (E pc) ri (U s) cis_u (ustk stack) (map upair pairs)
     = Ok (ustk stack', map upair pairs', stopped) /\
   stack_ok stack' /\ pairs_ok pairs'.
 Proof.
-  intros Hl. induction 1 as [|[i ch] [p ch'] cis_c cis_u [Hch Hp] Hrel IH];
+  intros Hl Hlo. induction 1 as [|[i ch] [p ch'] cis_c cis_u [Hch Hp] Hrel IH];
     intros stack pairs stack' pairs' stopped H Hs Hps.
   - cbn [bd16_run] in H. injection H as <- <- <-. auto.
   - cbn [fst snd] in Hch, Hp. subst ch'.
@@ -996,6 +996,11 @@ Proof.
     2:{ rewrite ustart_S by exact Hi. pose proof (len_pos lens Hpos _ Hi). lia. }
     cbn [bind].
     destruct (negb (c =c ON)); [apply IH; assumption|].
+    apply bind_ok in H as (o & Ho & H).
+    rewrite (get_expand 530 530 lens oc (s + i) o (U (s + i)) Hlo Ho).
+    2:{ rewrite ustart_S by exact Hi. pose proof (len_pos lens Hpos _ Hi). lia. }
+    cbn [bind].
+    destruct (removed_by_x9 o && negb lg); [apply IH; assumption|].
     destruct (ds_bracket ds ch) as [[opening is_open]|]; [|apply IH; assumption].
     destruct is_open.
     + unfold ustk at 1. rewrite map_length.
@@ -1167,14 +1172,14 @@ Proof.
       rewrite (lens_nth _ _ _ Hn). lia.
 Qed.
 
-Lemma bd16_runs_sim ds lg pc : length pc = k ->
+Lemma bd16_runs_sim ds lg oc pc : length pc = k -> length oc = k ->
   forall runs ri stack pairs res, Forall (run_in k) runs ->
-  bd16_runs U32 ds lg cps pc ri runs stack pairs = Ok res ->
+  bd16_runs U32 ds lg cps oc pc ri runs stack pairs = Ok res ->
   stack_ok lens stack -> pairs_ok lens pairs ->
-  bd16_runs e ds lg text (E pc) ri (map (urun lens) runs) (ustk lens stack) (map (upair lens) pairs)
+  bd16_runs e ds lg text (E oc) (E pc) ri (map (urun lens) runs) (ustk lens stack) (map (upair lens) pairs)
     = Ok (map (upair lens) res) /\ pairs_ok lens res.
 Proof.
-  intros Hl. induction runs as [|[s en] runs IH]; intros ri stack pairs res Hr H Hs Hps.
+  intros Hl Hlo. induction runs as [|[s en] runs IH]; intros ri stack pairs res Hr H Hs Hps.
   - cbn [bd16_runs] in H. injection H as <-. auto.
   - inversion Hr as [|? ? [Hr1 Hr2] Hr']; subst. cbn [fst snd] in Hr1, Hr2.
     cbn [bd16_runs] in H. apply bind_ok in H as (sub & Hsub & H).
@@ -1192,7 +1197,7 @@ Proof.
       rewrite map_length. apply cis_rel_positions.
       - rewrite Nat.add_0_r. unfold d. apply firstn_length_self.
       - rewrite !Nat.add_0_r. reflexivity. }
-    destruct (bd16_run_sim lens lens_pos ds lg pc ri s Hl _ _ Hrel _ _ _ _ _ Hrun Hs Hps)
+    destruct (bd16_run_sim lens lens_pos ds lg oc pc ri s Hl Hlo _ _ Hrel _ _ _ _ _ Hrun Hs Hps)
       as (Hrun' & Hs' & Hps').
     rewrite Hrun'. cbn [bind].
     destruct (stopped && negb lg).
@@ -1401,7 +1406,7 @@ Proof.
   unfold identify_bracket_pairs_gen in *.
   apply bind_ok in Hpairs as (ps & Hps & Hpairs). injection Hpairs as <-.
   change (irs_runs (useq lens sq)) with (map (urun lens) (irs_runs sq)).
-  assert (Hbd := bd16_runs_sim ds false pc Hl (irs_runs sq) 0 [] [] ps Hsq Hps
+  assert (Hbd := bd16_runs_sim ds false oc pc Hl Hoc (irs_runs sq) 0 [] [] ps Hsq Hps
                    (Forall_nil _) (Forall_nil _)).
   destruct Hbd as [Hbd Hok]. cbn [ustk map] in Hbd. rewrite Hbd. cbn [bind].
   rewrite (sort_pairs_sim lens lens_pos).
